@@ -348,6 +348,15 @@ def search(ctx):
                     n0, n1 = float(np.ravel(res[0].noise_sd)[0]) if np.ndim(res[0].noise_sd) else float(res[0].noise_sd), float(np.ravel(res[1].noise_sd)[0]) if np.ndim(res[1].noise_sd) else float(res[1].noise_sd)
                     if abs(n0 - n1) > 1e-10 or (not colour and abs(n0 - wn) > 1e-8):
                         ctx.violation("C16:average-noise", "relative noise of the averaged image wrong or order dependent (%r, %r, expected %r)" % (n0, n1, wn), dict(info, kind="average"))
+                    # a list is a list: an entry that occurs twice counts twice (a frame weighted by repetition, frames resampled with replacement)
+                    if K >= 2:
+                        rep = [0, 0] + list(range(1, K))
+                        ctx.tried("average-repeated", (nx, ny, colour, K, i))
+                        avr_ = impl_call(lambda: load_average([paths[j] for j in rep], spacing=spx, channel=(ch if colour else None)))
+                        wrep = np.array([arrs[j][:, :, ch].squeeze() if colour else arrs[j] for j in rep], dtype=float).mean(0)
+                        if (isinstance(avr_, tuple) and len(avr_) == 2 and avr_[0] == "err") or not (np.abs(avr_.values.squeeze() - wrep.squeeze()).max() <= 1e-10):
+                            ctx.violation("C16:average-repeated", "load_average of a list in which the first file occurs twice is not the pixelwise mean of the listed images (max dev %r)" % (
+                                avr_ if isinstance(avr_, tuple) else float(np.abs(avr_.values.squeeze() - wrep.squeeze()).max())), dict(info, kind="average-repeated", files=K))
                     # the averaged image is an image: it survives save -> load with its values, axes and noise level
                     if nx >= 2 and ny >= 2:
                         pav = os.path.join(WORK, "avg%d.h5" % i)
